@@ -166,7 +166,11 @@ func runC04Enum(src sim.Source, o Opts, res *Result) {
 					t0fail = fmt.Sprintf("after op %d the transaction does not read its own writes: %s", i, d)
 					return
 				}
-				s.Atomic(func() { d = entryPointsAgree(txn, probes) })
+				s.Atomic(func() {
+					if d = entryPointsAgree(txn, probes); d == "" {
+						d = lookupAgreesWithSet(txn, probes, private)
+					}
+				})
 				if d != "" {
 					t0fail = fmt.Sprintf("after op %d the transaction's read entry points disagree (one of them does not read its own writes): %s", i, d)
 					return
@@ -178,6 +182,13 @@ func runC04Enum(src sim.Source, o Opts, res *Result) {
 					s.Atomic(func() {
 						d = world.DiffLines(world.MapSweep(sn, methods3, pool, prefixes), world.ModelMapSweep(private, methods3, pool, prefixes))
 					})
+					if d == "" {
+						s.Atomic(func() {
+							if d = entryPointsAgree(sn, probes); d == "" {
+								d = lookupAgreesWithSet(sn, probes, private)
+							}
+						})
+					}
 					if d != "" {
 						t0fail = fmt.Sprintf("after op %d a Snapshot() of the transaction does not show its writes so far: %s", i, d)
 						return
